@@ -271,6 +271,11 @@ class PVLParser(object):
                     parsing = True
                 else:
                     return m
+            except LexerError:
+                # The hook consumed tokens and then found an anomaly:
+                # that is an error in the text, not a hook that
+                # declines to help.
+                raise
             except Exception:
                 pass
 
